@@ -165,7 +165,7 @@ func main() {
 	// 2. hooks in package gogen
 	{
 		var b bytes.Buffer
-		b.WriteString("//go:build verif\n\npackage gogen\n\nimport (\n\t\"go/token\"\n\t\"io\"\n\n\tvformat \"" + modPath + "/internal/go/format\"\n")
+		b.WriteString("//go:build verif\n\npackage gogen\n\nimport (\n\t\"go/token\"\n\t\"go/types\"\n\t\"io\"\n\n\tvformat \"" + modPath + "/internal/go/format\"\n")
 		for i, ip := range agg {
 			fmt.Fprintf(&b, "\tvg%d %q\n", i, ip)
 		}
@@ -176,6 +176,50 @@ func main() {
 			fmt.Fprintf(&b, "\tfor _, g := range vg%d.VerifGlobals() {\n\t\tret = append(ret, VerifGlobal{g.Name, g.Ptr})\n\t}\n", i)
 		}
 		b.WriteString("\treturn ret\n}\n")
+		// fast builtin initialisation: share the (immutable) operator/function templates of the
+		// builtin package between package instances of one process; only generated when the
+		// internal initialisers it calls still exist under these names.
+		need := map[string]bool{"initBuiltinOps": false, "initBuiltinAssignOps": false, "initBuiltinFuncs": false, "initBuiltinTIs": false, "initUnsafeFuncs": false}
+		for _, f := range byPath[modPath].asts {
+			for _, d := range f.Decls {
+				if fd, ok := d.(*ast.FuncDecl); ok && fd.Recv == nil {
+					if _, ok := need[fd.Name.Name]; ok {
+						need[fd.Name.Name] = true
+					}
+				}
+			}
+		}
+		fast := true
+		for _, ok := range need {
+			fast = fast && ok
+		}
+		if fast {
+			b.WriteString(`
+// VerifFastBuiltin reports that VerifInitBuiltin can reuse a previously initialised builtin package.
+const VerifFastBuiltin = true
+
+// VerifInitBuiltin is InitBuiltin split in two: the package-independent templates are created
+// only when fresh is true; the per-package tables are always initialised.
+func VerifInitBuiltin(pkg *Package, builtin *types.Package, conf *Config, fresh bool) {
+	if fresh {
+		initBuiltinOps(builtin, conf)
+		initBuiltinAssignOps(builtin, conf)
+		initBuiltinFuncs(builtin, conf)
+	}
+	initBuiltinTIs(pkg)
+	initUnsafeFuncs(pkg)
+}
+`)
+		} else {
+			gaps = append(gaps, "fast builtin init unavailable (internal initialisers renamed); using InitBuiltin")
+			b.WriteString(`
+const VerifFastBuiltin = false
+
+func VerifInitBuiltin(pkg *Package, builtin *types.Package, conf *Config, fresh bool) {
+	InitBuiltin(pkg, builtin, conf)
+}
+`)
+		}
 		dst := filepath.Join(*out, "zz_verif_hooks.go")
 		writeIfChanged(dst, b.Bytes())
 		overlay[filepath.Join(*repo, "zz_verif_hooks.go")] = dst
